@@ -20,6 +20,7 @@ ParamVerdict(p) ==
         ELSE IF Set(p.eq) # {} /\ p.pos \notin Set(p.eq) THEN "shows-another-argument"
         ELSE IF ~(Set(p.ds) \subseteq {p.pos}) THEN "depends-on-another-argument"
         ELSE "ok")
+  ELSE IF p.kind = "num-unstable" THEN "number-is-its-argument-only-sometimes"     \* e.g. a stale cached rendering
   ELSE IF p.kind = "path" THEN (IF Set(p.ds) # {} THEN "path-depends-on-argument" ELSE "ok")
   ELSE (IF Set(p.dl) # {} THEN "symbol-depends-on-lookup"
         ELSE IF Set(p.ds) # {} /\ p.pos \notin Set(p.ds) THEN "symbol-of-another-argument"
